@@ -109,7 +109,7 @@ def make(e, progs, job):
         for i, cl in enumerate(S.call(e, prog, 'Sentence', 'boundaries_mut', [Ref(cell)]).cells()):
             t = z3.BitVec('pre%d' % i, 8)
             e.add(z3.ULE(t, 2)); cl.v = Int(t, 8); pre.append(cl.v)
-        types = P.concretize_types(e, prog, cell) if P.uses_types(shape) else [None] * job['n']
+        types = P.prepare_types(e, prog, cell, shape)
         S.call(e, prog, 'Predictor', 'predict', [Ref(pcell), Ref(cell)])
         scores = S.seq_vals(S.call(e, prog, 'Sentence', 'boundary_scores', [Ref(cell)]))
         labels = S.seq_vals(S.call(e, prog, 'Sentence', 'boundaries', [Ref(cell)]))
